@@ -19,9 +19,12 @@ ASSUMPTIONS = ['float rounding: R_i compared with relative tolerance 1e-9 of the
 
 
 def _grid(rng, n, lo, hi):
-    xs = set()
+    xs, bits, tries = set(), 10, 0
     while len(xs) < n:
-        xs.add(rng.dyadic(lo, hi, 10))
+        xs.add(rng.dyadic(lo, hi, bits))
+        tries += 1
+        if tries > 20 * n:       # a narrow range holds few 10-bit values: refine instead of drawing forever
+            bits, tries = bits + 2, 0
     return sorted(xs)
 
 
